@@ -204,6 +204,7 @@ func TestC08(t *testing.T) {
 			return nil
 		}
 		fail0 := func(v *drv.Violation) {
+			drv.SetFailing()
 			log := e.Log
 			e.Cleanup()
 			failCase(rt, replayDoc{Property: "C08", Kind: "fault", Ops: log, Extra: mustJSON(c08Doc{K: 0})}, v)
